@@ -281,6 +281,10 @@ type msgpipelineDelivery struct {
 	deliveries  map[module.DeliveryTarget]*delivery
 	msgMeta     *module.MsgMetadata
 	checkRunner *checkRunner
+
+	// Set by BodyNonAtomic when a check or modifier refused the message for
+	// all recipients.
+	refused bool
 }
 
 func (dd *msgpipelineDelivery) AddRcpt(ctx context.Context, to string, opts smtp.RcptOptions) error {
@@ -467,6 +471,9 @@ func (sc *statusCollector) SetStatus(rcptTo string, err error) {
 
 func (dd *msgpipelineDelivery) BodyNonAtomic(ctx context.Context, c module.StatusCollector, header textproto.Header, body buffer.Buffer) {
 	setStatusAll := func(err error) {
+		// Every recipient is told that the message is refused and no target
+		// will see the body: there is nothing left to commit.
+		dd.refused = true
 		for _, delivery := range dd.deliveries {
 			for _, rcpt := range delivery.recipients {
 				c.SetStatus(rcpt, err)
@@ -540,6 +547,13 @@ func (dd *msgpipelineDelivery) BodyNonAtomic(ctx context.Context, c module.Statu
 }
 
 func (dd msgpipelineDelivery) Commit(ctx context.Context) error {
+	if dd.refused {
+		// BodyNonAtomic refused the message for all recipients before any
+		// target was handed the body (message sources that use it always
+		// commit): close the target deliveries without committing them.
+		return dd.Abort(ctx)
+	}
+
 	dd.close()
 
 	var commitErr error
